@@ -1,18 +1,15 @@
 ------------------------------- MODULE PSData -------------------------------
-(* Binding data for the shipped pair ProcedureSpaghetti.tla.expectpcal / .go:        *)
-(* the generated Go archetype Arch1 is run as `process (Pross1 = 1) == instance       *)
-(* Arch1(ref V1, 30) mapping V1 via M`.  pcal renames the labels of the specialised   *)
-(* procedures; GoShort gives, for each label process 1 can reach, the label of the    *)
-(* generated Go code (without its "Proc." prefix).  MCPS checks that process 1 never  *)
-(* leaves this table (otherwise the view is out of date: inconclusive, no verdict).   *)
+(* Binding data for the shipped pair ProcedureSpaghetti.tla.expectpcal / .go: the     *)
+(* generated Go archetype Arch1 is run as the instance                                *)
+(*     process (Pross1 = 1) == instance Arch1(ref V1, 30) mapping V1 via M            *)
+(* PS.tla (cut out of the repository's .expectpcal and translated by pcal at check    *)
+(* time, see checks/C04.py extract_ps) holds that process and the specialised         *)
+(* procedures it reaches.  Labels keep the names of the generated Go code; the        *)
+(* procedure variables are those of the specialisation (Proc1.c is c0).               *)
 EXTENDS Integers
 
 PSArgs == {0, 7, 13}
 PSSelf == 1
-GoShort == [Arch1lbl_  |-> "Arch1lbl",
-            Proc1lbl1_ |-> "Proc1lbl1",
-            Proc1lbl2_ |-> "Proc1lbl2",
-            Proc2lbl1_ |-> "Proc2lbl1",
-            Done       |-> "Done"]
 PSKnownVars == {"b", "c0"}
+PSKnownLabels == {"Arch1lbl", "Proc1lbl1", "Proc1lbl2", "Proc2lbl1", "Done"}
 =============================================================================
